@@ -65,7 +65,12 @@ pub fn check_case(c0: &Case) -> Verdict {
     v.class(match c.s { 1 => "S=1", 2..=16 => "S<=16", 17..=1024 => "S<=1024", _ => "S>1024" });
     v.class(if c.via_cli { "via-executable" } else { "via-library" });
     let r = if c.via_cli {
-        let mut args = crate::cli::sv(&["comp", "cgr", "-i", &io::path_str(&input), "-o", &io::path_str(&out), "-k", &c.k.to_string(), "-v", &c.s.to_string(), "-t", &c.threads.to_string()]);
+        // the numbers in one of the decimal spellings the argument parser accepts (plain, zero-padded, plus sign),
+        // chosen from the case's content
+        let h = crate::util::fnv64(format!("{}:{}:{}", c.recs.len(), c.k, c.s).as_bytes());
+        let spelt = |x: u64, j: u64| match (h >> (3 * j)) & 7 { 5 => format!("0{}", x), 6 => format!("000{}", x), 7 => format!("+{}", x), _ => x.to_string() };
+        v.class_if((0..3).any(|j| (h >> (3 * j)) & 7 >= 5), "numbers-zero-padded-or-signed");
+        let mut args = crate::cli::sv(&["comp", "cgr", "-i", &io::path_str(&input), "-o", &io::path_str(&out), "-k", &spelt(c.k as u64, 0), "-v", &spelt(c.s, 1), "-t", &spelt(c.threads as u64, 2)]);
         if !c.norm {
             args.push("-c".into());
         }
